@@ -176,9 +176,19 @@ def param_formula_base():
     return _compare(m, ["m.P[1].c0(1)"])
 
 
+def param_named_like_builtin():
+    """a parameter of a parametrised space named like a built-in is left unqualified: in the package's ItemSpaces
+    the name denotes the built-in function, in the model the argument"""
+    m = _reset()
+    P = m.new_space("P", formula="def _formula(p, oct=3):\n    return None")
+    P.new_cells("c0", formula="def c0(x):\n    return p * 10 + oct + x")
+    return _compare(m, ["m.P[1].c0(1)", "m.P(2, 5).c0(0)"])
+
+
 ALL = [inf_reference, keyword_named_like_global, parenthesised_name, method_of_local_class,
        comprehension_target_named_like_global, dunder_builtin, class_attribute_named_like_global,
-       model_reference_named_like_cells, try_scopes_in_handler_and_else, param_formula_refs, param_formula_base]
+       model_reference_named_like_cells, try_scopes_in_handler_and_else, param_formula_refs, param_formula_base,
+       param_named_like_builtin]
 
 if __name__ == "__main__":
     names = sys.argv[1:]
